@@ -379,15 +379,21 @@ def run_js(res, spec):
                     rows = [[('x' * 20000 if j == 3 else 'v') for j in range(ncols)] for _i in range(3)]
                 wide.append({'table': rows, 'header': names, 'delim': dlm, 'policy': policy, 'line_separator': rng.choice(['\n', '\r\n']), 'encoding': 'utf-8', 'also_stream': False, 'async_sink': True})
             wide += [dict(c, async_sink=False) for c in wide[:2]]
+            # one record spanning more than a thousand physical lines (a log or text-blob cell): quoted_rfc keeps every line break, LF / CRLF / CR read back as LF
+            for nbreaks, ls in ((999, '\n'), (1000, '\n'), (1500, '\r\n'), (2600, '\r')):
+                blob = ls.join('line %d' % i for i in range(nbreaks + 1))
+                wide.append({'table': [['id', blob, 'tail'], ['2', 'x', 'y']], 'header': ['k', 'text', 't'], 'delim': ',', 'policy': 'quoted_rfc', 'line_separator': '\n', 'encoding': 'utf-8',
+                             'also_stream': True, 'async_sink': False, 'expect': [['k', 'text', 't'], ['id', blob.replace('\r\n', '\n').replace('\r', '\n'), 'tail'], ['2', 'x', 'y']]})
             outs = node.call({'op': 'roundtrip_batch', 'cases': wide})['results']
             for c, o in zip(wide, outs):
                 res.evaluations += 1
                 res.count('js_wide_line_roundtrips')
-                exp = [c['header']] + c['table']
-                if o['werror'] is not None or o['rerror'] is not None or o['records'] != exp or util.warning_kinds(o['wwarnings']) or util.warning_kinds(o['rwarnings']):
+                exp = c.get('expect') or ([c['header']] + c['table'])
+                sbad = [st for st in (o.get('stream') or []) if st['error'] is not None or st['stuck'] or st['records'] != exp]
+                if o['werror'] is not None or o['rerror'] is not None or o['records'] != exp or sbad or util.warning_kinds(o['wwarnings']) or util.warning_kinds(o['rwarnings']):
                     got = o['records'] or []
-                    res.violation('js-wide-line-roundtrip-differs', 'JS: a header of %d names (line of %d bytes) + %d records (%s %r) read back as %d records of widths %r (errors %r / %r, warnings %r / %r)' % (
-                        len(c['header']), len(c['delim'].join(c['header'])), len(c['table']), c['policy'], c['delim'], len(got), [len(r) for r in got][:6], o['werror'], o['rerror'], o['wwarnings'], o['rwarnings']),
+                    res.violation('js-wide-line-roundtrip-differs', 'JS: a header of %d names (line of %d bytes) + %d records (%s %r; longest cell %d characters with %d line breaks) read back as %d records of widths %r (errors %r / %r, stream reads differing %d, warnings %r / %r)' % (
+                        len(c['header']), len(c['delim'].join(c['header'])), len(c['table']), c['policy'], c['delim'], max(len(v) for r in c['table'] for v in r), max(v.count('\n') + v.count('\r') for r in c['table'] for v in r), len(got), [len(r) for r in got][:6], o['werror'], o['rerror'], len(sbad), o['wwarnings'], o['rwarnings']),
                         {'engine': 'js', 'leg': 'wide-lines', 'columns': len(c['header']), 'records': len(c['table']), 'policy': c['policy'], 'dlm': c['delim']})
         noise = node.take_noise()
         if noise:
